@@ -240,6 +240,13 @@ func (c *Ctx) Violation(key, msg string, x *vsched.Exec) {
 	c.vio[key] = v
 }
 
+// Discard returns a copy of the context whose violations are thrown away.
+func (c *Ctx) Discard() *Ctx {
+	d := *c
+	d.vio = map[string]*Violation{}
+	return &d
+}
+
 // Case counts one enumerated case (input, history, ...).
 func (c *Ctx) Case() { c.Res.Cases++ }
 
